@@ -57,11 +57,9 @@ int sqfs_tree_node_get_path(const sqfs_tree_node_t *node, char **out)
 	if (n == 0)
 		str[o++] = '/';
 	for (j = n - 1; j >= 0; --j) {
-		const char *nm = (const char *)g_nodes[chain[j]].name;
-
 		str[o++] = '/';
-		for (i = 0; nm[i] != '\0'; ++i)
-			str[o++] = nm[i];
+		for (i = 0; g_nodes[chain[j]].name[i] != '\0'; ++i)
+			*(sqfs_u8 *)&str[o++] = g_nodes[chain[j]].name[i];
 	}
 	str[o] = '\0';
 	*out = str;
